@@ -292,6 +292,20 @@ func report(vdir, prop, tier string, seed int, results []*engine.UnitResult, t0 
 	sort.Slice(results, func(i, j int) bool { return results[i].Unit < results[j].Unit })
 	for _, r := range results {
 		if r.Err != nil {
+			// a unit whose obligations were discharged on the unchanged tree and whose contract
+			// no longer binds to the code (loop removed, callee changed, ...) fails verification
+			wasProved := false
+			for n := range inBaseline {
+				if strings.HasPrefix(n, r.Unit+"#") {
+					wasProved = true
+					break
+				}
+			}
+			if wasProved {
+				o := &engine.Obligation{Name: r.Unit + "#binding", Kind: "binding", Desc: "the contract no longer applies to the code: " + firstLine(r.Err.Error()), Pos: r.Pos, Status: "unbound"}
+				violations = append(violations, writeViolation(vdir, prop, o, "contract of a previously verified function cannot be applied to the changed code"))
+				continue
+			}
 			fmt.Printf("CHECK-BROKEN: unit %s (%s): %v\n", r.Unit, r.Pos, r.Err)
 			broken++
 			continue
@@ -473,6 +487,13 @@ func report(vdir, prop, tier string, seed int, results []*engine.UnitResult, t0 
 		return 1
 	}
 	return 0
+}
+
+func firstLine(s string) string {
+	if i := strings.Index(s, "\n"); i >= 0 {
+		return s[:i]
+	}
+	return s
 }
 
 func oblServes(o *engine.Obligation, prop string) bool {
